@@ -996,7 +996,11 @@ func Main(t *testing.T, c Check) {
 		_ = os.MkdirAll(filepath.Join(dir, "bin"), 0o755)
 		if f, err := os.OpenFile(filepath.Join(dir, "bin", "unconfirmed-"+c.ID+".log"), os.O_CREATE|os.O_APPEND|os.O_WRONLY, 0o644); err == nil {
 			for _, u := range unconfirmed {
-				fmt.Fprintf(f, "%s tier=%s %s\n", time.Now().Format(time.RFC3339), tier, u)
+				repo := os.Getenv("VERIF_REPO") // set when a patched scratch copy is being checked
+				if repo == "" {
+					repo = "/repo"
+				}
+				fmt.Fprintf(f, "%s tier=%s tree=%s %s\n", time.Now().Format(time.RFC3339), tier, repo, u)
 			}
 			_ = f.Close()
 		}
